@@ -27,7 +27,7 @@ RULE = ("arithmetic: random FP2Value coefficient 6-tuples over primes p in PRIME
         "challenge orders {full in order, shuffled, reversed, random subset, small subset, prefix, empty}; encode/decode on "
         "small fresh keys with message spaces {[0,1,2], 0..255, shuffled, without the plaintext} and scripted retries; "
         "synthetic relativity maps {equal, sub, over, neighbour, random}; integers of all sizes for ipack; range rounds "
-        "{inside (bit spaces 32..512), edge, outside (honest), outside by one, 9 kinds of cheating prover, independent verifier "
+        "{inside (bit spaces 32..512), edge, outside (honest), outside by one, 9 kinds of cheating prover, formats with max <= 0, challenges at the verifier's threshold, independent verifier "
         "ranges with histories of checks on one object, tampered answers, multi-answer aggregates}; verifications between "
         "AttestationCommunity nodes over a network in 9 modes (duplicates, re-ordering, losses, time-outs, wrong honesty "
         "answers, answer bytes above 3) and the shipped range format through the community. "
@@ -56,7 +56,7 @@ PRIMES = [5, 11, 23, 29, 101, 1019, 65537, 2 ** 61 - 1, 2 ** 127 - 1]
 
 def generate(ctx: Ctx):
     src, _ = gen_fp2.translate()
-    return [("Ipv8/C18/GenFP2.lean", src)]
+    return [("Ipv8/C18/GenFP2.lean", src), ("Ipv8/C18/GenGuard.lean", gen_fp2.translate_guards())]
 
 
 # ---- exact arithmetic in F_p[w]/(w^2+w+1), written independently of both the model and the code -------------
@@ -444,6 +444,14 @@ def check_key_hypotheses(ctx, sk, where, report=True):
         "(g^t1)^2!=1": e_mul(t, t, p) != one,
         "compressed": is_compressed(sk.g) and is_compressed(sk.h),
     }
+    if sk.t1 > 255 and sk.n // sk.t1 > 255 and "range" in where:
+        # decode over the byte message space range(256) (private part of range attestations): g^t1 has order above 255
+        acc, sep = (1, 0), True
+        for _ in range(255):
+            acc = e_mul(acc, t, p)
+            sep = sep and acc != one
+        ok["ord(g^t1)>255"] = sep
+    ctx.count("keyhyp:order-of-g:" + ("n" if e_powf(g, sk.n // sk.t1, p) != one else "t2"))
     bad = [k for k, v in ok.items() if not v]
     ctx.count("keyhyp:" + ("ok" if not bad else "+".join(bad)))
     if bad and report:
@@ -804,13 +812,13 @@ def scoring_cases(ctx: Ctx, batch: Batch, n: int):
         ctx.case(("score", tuple(e), tuple(v)), True)
 
 
-def bad_answer_cases(ctx: Ctx, n: int):
+def bad_answer_cases(ctx: Ctx, n: int, forced=None):
     """answers that no honest prover sends (bytes above 3) must not poison later honest rounds: process_challenge_response
     holds a module-global lock while it updates the map"""
     from ipv8.attestation.wallet.bonehexact import attestation as battest
     rng = ctx.rng
     for _ in range(n):
-        r = rng.choice([4, 5, 7, 255, rng.randrange(4, 256)])
+        r = rng.choice([4, 5, 7, 255, rng.randrange(4, 256)]) if forced is None else forced
         m = battest.create_empty_relativity_map()
         outcome = "ignored"
         try:
@@ -993,6 +1001,8 @@ def _range_round(ctx: Ctx, batch: Batch, sk, scenario, seed, rng, force, script)
     if scenario == "wrong-range":
         width = max(width, 2)
     b = max(a + width, 1)     # max = 0 is not a usable format: EL.create's randomness range `2 ^ (l + t) * b - 1` is negative
+    if scenario == "inside-max0":          # formats whose upper bound is not positive
+        a, b = rng.choice([0, 0, -3]), 0
     bitspace = 32
     if scenario == "inside-bigspace":      # every key size the API accepts (32..512) is also the bit space of the proof
         bitspace = force.get("bitspace") or [512, 64, 256, 128, 504][ctx.counts.get("range:inside-bigspace", 0) % 5]
@@ -1043,7 +1053,8 @@ def _range_round(ctx: Ctx, batch: Batch, sk, scenario, seed, rng, force, script)
             return att
 
         try:
-            with Patched((rattest, "_random_number", rn), (boudot, "secure_randint", srand),
+            with Patched((rattest, "_random_number", rn),
+                         (boudot, "secure_randint", boudot.secure_randint if b <= 0 else srand),
                          (boneh, "randint", rec_b.randint), (ralg, "create_attest_pair", cap)):
                 blob = alg.attest(pk, to_bytes(value))
             return blob, draws, sdraws, captured.get("att"), None
@@ -1079,8 +1090,10 @@ def _range_round(ctx: Ctx, batch: Batch, sk, scenario, seed, rng, force, script)
         agg = alg_v.process_challenge_response(agg, ch, resp)
         return alg_v.certainty(b"\x01", agg), alg_v.certainty(b"\x00", agg)
 
-    if scenario in ("inside", "inside-edge", "inside-bigspace", "wrong-range", "tampered"):
+    if scenario in ("inside", "inside-edge", "inside-bigspace", "inside-max0", "wrong-range", "tampered"):
         value = rng.choice([a, b]) if scenario == "inside-edge" else rng.randrange(a, b + 1)
+        if scenario == "inside-max0":
+            value = 0
         if scenario == "wrong-range":
             value = rng.randrange(a + 1, b)          # strictly inside, so that each bound can be moved on its own
         rp["value"] = value
@@ -1091,12 +1104,28 @@ def _range_round(ctx: Ctx, batch: Batch, sk, scenario, seed, rng, force, script)
             return
         if blob is None and att0 is not None:
             nbytes = len(att0.privatedata.serialize())
-            ctx.count("range:private-data-not-encodable")
-            ctx.oracle_fail("PengBaoCommitmentPrivate.encode:private-data-exceeds-255-bytes",
-                            f"attest() for {value} in [{a},{b}] at bit space {bitspace} raises ({err}): the private "
-                            f"part is {nbytes} bytes, its length is packed into one byte", rp)
+            if nbytes > 255 and err == "not-encodable:error":        # exactly the predicted condition (struct.error)
+                ctx.count("range:private-data-not-encodable")
+                ctx.oracle_fail("PengBaoCommitmentPrivate.encode:private-data-exceeds-255-bytes",
+                                f"attest() for {value} in [{a},{b}] at bit space {bitspace} raises ({err}): the private "
+                                f"part is {nbytes} bytes, its length is packed into one byte", rp)
+            else:
+                ctx.oracle_fail("PengBaoAttestation.serialize_private:raises",
+                                f"attest() for {value} in [{a},{b}] at bit space {bitspace} raises ({err}) although the "
+                                f"proof exists and its private part is only {nbytes} bytes", rp)
             att = att0                                   # go on with the in-memory proof
             blob = att0.serialize()
+        elif blob is None and b <= 0 and err == "ValueError":
+            ctx.count("range:max-not-positive")
+            ctx.oracle_fail("EL.create:max-not-positive",
+                            f"no attestation for {value} in [{a},{b}]: EL.create's randomness range "
+                            f"`2 ^ (l + t) * b - 1` (XOR) is negative for max <= 0 ({err})", rp)
+            if ctx.model_ok:
+                fake = [rng.getrandbits(32) + 3 for _ in range(19)]
+                batch.add(f"rcreate {pk.p} {v6(pk.g)} {v6(pk.h)} {value} {a} {b} " + " ".join(map(str, fake)), "none",
+                          tag="create_attest_pair for max <= 0")
+            ctx.case(("range", scenario, a, b, value, sk.p), True)
+            return
         elif blob is None:
             ctx.oracle_fail("create_attest_pair:inside-range", f"no attestation for {value} in [{a},{b}] at bit space "
                                                                f"{bitspace}: the attester raises {err}", rp)
@@ -1115,7 +1144,7 @@ def _range_round(ctx: Ctx, batch: Batch, sk, scenario, seed, rng, force, script)
         resp = alg.create_challenge_response(sk, att, ch)
         x, y, rem = unpack_pair(resp)
         u, v, _ = unpack_pair(rem)
-        if scenario in ("inside", "inside-edge", "inside-bigspace"):
+        if scenario in ("inside", "inside-edge", "inside-bigspace", "inside-max0"):
             yes, no = verdict(att, ch, resp)
             if pv0.m2 < 0:
                 ctx.count("range:inside:m2-negative-skipped")   # documented randomness-side precondition
@@ -1127,30 +1156,39 @@ def _range_round(ctx: Ctx, batch: Batch, sk, scenario, seed, rng, force, script)
                 # challenges on the boundary of what the verifier's generator can produce (the smallest s, t the
                 # verifier draws must be the smallest the prover answers honestly)
                 L = ralg.LARGE_INTEGER
-                bkind = ["s=min", "t=min", "both=min", "s=min+1", "t=min+1"][
-                    ctx.counts.get("range:boundary-challenge", 0) % 5]
+                bkinds = ["s=min", "t=min-1", "both=min", "s=min-1", "t=min", "s=min+1", "t=min+1"]
+                bkind = force.get("bkind") or bkinds[ctx.counts.get("range:boundary-challenge", 0) % len(bkinds)]
                 ctx.count("range:boundary-challenge")
-                big = rng.getrandbits(30) + 2 * L
+                big, big2 = rng.getrandbits(30) + 2 * L, rng.getrandbits(30) + 2 * L
                 script.extend({"s=min": [L, big], "t=min": [big, L], "both=min": [L, L], "s=min+1": [L + 1, big],
-                               "t=min+1": [big, L + 1]}[bkind])
+                               "t=min+1": [big, L + 1], "s=min-1": [L - 1, big, big2],
+                               "t=min-1": [big, L - 1, big2]}[bkind])
                 chb = alg.create_challenges(pk, None)[0]
                 del script[:]
                 sb, tb, _ = unpack_pair(chb)
-                ctx.count(f"range:boundary-challenge:{bkind}:{'drawn' if min(sb, tb) <= L + 1 else 'redrawn'}")
+                brp = dict(rp, bkind=bkind, s=sb, t=tb)
+                ctx.count(f"range:boundary-challenge:{bkind}:{'kept' if min(sb, tb) <= L + 1 else 'redrawn'}")
                 yesb, _ = verdict(att, chb, alg.create_challenge_response(sk, att, chb))
-                batch.add(f"guard {L} {sb} {tb}", f"true true {'true' if yesb == 1.0 else 'false'}",
-                          tag="challenge threshold (boundary)")
+                if yesb != 1.0:
+                    ctx.oracle_fail("create_challenge_response:boundary-challenge",
+                                    f"the verifier's generator was fed draws around its threshold ({bkind}) and came out "
+                                    f"with the challenge (s, t) = ({sb}, {tb}); the honest prover's answer for {value} "
+                                    f"in [{a},{b}] is rejected", brp)
+                # the two threshold tests, observed through the code: which single draws does _safe_rndint keep, which
+                # challenges does the prover answer honestly
+                for d in (L - 1, L, L + 1):
+                    script.extend([d, big])
+                    kept = ralg._safe_rndint(32, pk.g.mod - 1) == d  # noqa: SLF001
+                    del script[:]
+                    batch.add(f"guard {L} {d} {big}", str(kept).lower(), cmp=lambda m, c: m.split()[0] == c,
+                              tag="verifier keeps the draw")
+                batch.add(f"guard {L} {sb} {tb}", "true" if yesb == 1.0 else "false",
+                          cmp=lambda m, c: m.split()[2] == c, tag="prover answers the drawn challenge honestly")
                 below = pack_pair(L - 1, big) if bkind.startswith("s") else pack_pair(big, L - 1)
                 yesl, _ = verdict(att, below, alg.create_challenge_response(sk, att, below))
                 sl, tl, _ = unpack_pair(below)
-                batch.add(f"guard {L} {sl} {tl}", f"{str(sl >= L).lower()} {str(tl >= L).lower()} "
-                                                  f"{'true' if yesl == 1.0 else 'false'}",
-                          tag="challenge threshold (below)")
-                if yesb != 1.0:
-                    ctx.oracle_fail("create_challenge_response:boundary-challenge",
-                                    f"the verifier drew the challenge (s, t) = ({sb}, {tb}) (smallest value it can draw: "
-                                    f"{L}); the honest prover's answer for {value} in [{a},{b}] is rejected",
-                                    dict(rp, s=sb, t=tb))
+                batch.add(f"guard {L} {sl} {tl}", "true" if yesl == 1.0 else "false",
+                          cmp=lambda m, c: m.split()[2] == c, tag="prover refuses a challenge below the threshold")
                 # aggregates with several answers: one failed check spoils the verdict, no answer is no evidence
                 ch_b, s_b, t_b = challenge_st(small_first=True)
                 xb, yb, remb = unpack_pair(alg.create_challenge_response(sk, att, ch_b))
@@ -1234,10 +1272,11 @@ def _range_round(ctx: Ctx, batch: Batch, sk, scenario, seed, rng, force, script)
                                         f"proof for {value} built for [{a},{b}] accepted by a verifier whose range is "
                                         f"[{a2},{b2}] (history {hname}, {pos} earlier checks on the same object)", hrp)
                     elif yes != 0.0:
-                        ctx.oracle_fail("PengBaoPublicData.check:other-range-accepted",
-                                        f"proof built for [{a},{b}] accepted as a proof for the different range "
-                                        f"[{a2},{b2}] (history {hname}, {pos} earlier checks)", hrp)
-                    if hname == "own-first" and (shift in ("same-a", "same-b", "own") or rng.random() < 0.3):
+                        # the value IS inside the verifier's range: no clause of the property is violated; the model
+                        # (accepted_binds_verifier_range) says it cannot happen, so it is left to the correspondence
+                        ctx.count("range:other-range-accepted-with-value-inside")
+                    if (hname == "own-first" and (shift in ("same-a", "same-b", "own") or rng.random() < 0.3)) \
+                            or (yes != 0.0 and shift != "own"):
                         x2, y2, rem2 = unpack_pair(resp2)
                         u2, v2, _ = unpack_pair(rem2)
                         add_rcheck(ctx, batch, pk, att.publicdata, a2, b2, s_, t_, x2, y2, u2, v2, yes == 1.0,
@@ -1561,7 +1600,7 @@ async def _community_round(ctx: Ctx, batch: Batch, mode: str, id_format: str, se
                                         f"stays held; the next honest answer would block forever", rp)
                     scan_new_challenges()
                     hon = 0
-                    if len(shim.calls) > c0 and shim.calls[c0][0] < 38 and len(choices) > h0:
+                    if len(choices) > h0:      # the verifier decided on a honesty check (whatever its coin rule is)
                         hon = choices[h0] + 1
                     events.append((0, ident, r, hon))
                     snaps.append(snapshot())
@@ -1728,8 +1767,11 @@ async def _community_range_round(ctx: Ctx, duplicate: bool, seed: int):
         rp["sk"] = sk.serialize().hex()
         try:
             blob = algorithm.attest(sk.public_key(), bytes([value]))
-        except Exception:  # noqa: BLE001 - m2 < 0 (see range rounds): nothing to verify
-            ctx.count("community-range:attest-raised")
+        except Exception as e:  # noqa: BLE001
+            # (the split m2 < 0 makes attest raise with probability about 2^-15; accepted as a residual risk)
+            ctx.oracle_fail("PengBaoRangeAlgorithm.attest:raises",
+                            f"attest() of the shipped range format for {value} in [18, 200] raises {type(e).__name__}: {e}",
+                            rp)
             return
         att = algorithm.get_attestation_class().unserialize_private(sk, blob, id_format)
         ahash = hashlib.sha1(att.serialize()).digest()
@@ -1768,7 +1810,7 @@ SESSION_SCHEMAS = {      # exact formats at the smallest key size, next to the s
 SESSION_HASH = {"v_sha256_4": "sha256_4", "v_sha256": "sha256", "v_sha512": "sha512", "id_metadata": "sha256_4"}
 
 
-def issuance_session(ctx: Ctx, batch: Batch, seed=None):
+def issuance_session(ctx: Ctx, batch: Batch, seed=None, force=None):
     """a long-lived pair of nodes: the attestee requests several attestations (different formats, fresh keys) that are
     outstanding at the same time and answered out of order with interleaved/duplicated chunks; afterwards the same two
     nodes verify every attribute, one format after the other"""
@@ -1777,12 +1819,12 @@ def issuance_session(ctx: Ctx, batch: Batch, seed=None):
     seed = ctx.rng.getrandbits(64) if seed is None else seed
     logging.disable(logging.CRITICAL)
     try:
-        asyncio.run(_issuance_session(ctx, batch, seed))
+        asyncio.run(_issuance_session(ctx, batch, seed, force or {}))
     finally:
         logging.disable(logging.NOTSET)
 
 
-async def _issuance_session(ctx: Ctx, batch: Batch, seed: int):  # noqa: C901, PLR0912, PLR0915
+async def _issuance_session(ctx: Ctx, batch: Batch, seed: int, force: dict):  # noqa: C901, PLR0912, PLR0915
     import asyncio
     from ipv8.attestation.wallet.community import AttestationCommunity, AttestationSettings
     from ipv8.attestation.wallet.payload import AttestationChunkPayload, RequestAttestationPayload
@@ -1823,13 +1865,17 @@ async def _issuance_session(ctx: Ctx, batch: Batch, seed: int):  # noqa: C901, P
                 nodes[it[1]].endpoint.notify_listeners((addr[it[0]], it[2]))
                 await settle()
 
-    plan = [("reversed", "interleaved"), ("reversed", "fifo"), ("random", "interleaved+dup"), ("in-order", "interleaved")]
+    plan = [("reversed", "interleaved+dup"), ("in-order", "interleaved+dup"), ("reversed", "fifo"), ("random", "interleaved")]
+    if force.get("answer_order"):
+        plan = [(force["answer_order"], force["chunks"])]
     order_kind, chunk_net = plan[ctx.counts.get("session:requests-sessions", 0) % len(plan)]
     ctx.count("session:requests-sessions")
     nreq = rng.choice([2, 3, 3])
     fmts = rng.sample(["v_sha256_4", "v_sha256", "v_sha512", "id_metadata"], nreq)   # distinct formats, one algorithm
     if nreq == 3 and rng.random() < 0.5:
         fmts[-1] = fmts[0]                     # two outstanding requests of the same format as well
+    if force.get("formats"):
+        fmts = list(force["formats"])
     rp = {"kind": "session", "seed": seed, "formats": fmts, "answer_order": order_kind, "chunks": chunk_net}
     ctx.count(f"session:answer-order:{order_kind}")
     ctx.count(f"session:chunks:{chunk_net}")
@@ -1839,6 +1885,9 @@ async def _issuance_session(ctx: Ctx, batch: Batch, seed: int):  # noqa: C901, P
             alg = attestee.get_id_algorithm(fmt)
             sk = alg.generate_secret_key()
             value = value_of_class(rng, rng.choice(VALUE_CLASSES))
+            if force.get("keys"):
+                sk = alg.load_secret_key(bytes.fromhex(force["keys"][i]))
+                value = bytes.fromhex(force["values"][i])
             reqs.append({"name": f"attr{i}", "fmt": fmt, "sk": sk, "value": value})
             ctx.count(f"session:format:{fmt}")
         rp["keys"] = [r["sk"].serialize().hex() for r in reqs]
@@ -1984,7 +2033,8 @@ def protocol_cases(ctx: Ctx, scale: float):
     scen = ["inside", "outside-cheater", "wrong-range", "inside-edge", "outside-cheater", "outside-honest",
             "outside-cheater", "wrong-range", "outside-by-one", "outside-cheater", "tampered", "outside-cheater",
             "wrong-range", "inside-bigspace", "outside-cheater", "wrong-range", "outside-cheater", "tampered",
-            "outside-cheater", "inside-bigspace", "inside-edge", "outside-honest", "inside", "tampered", "outside-by-one", "tampered"]
+            "outside-cheater", "inside-bigspace", "inside-edge", "outside-honest", "inside", "inside-max0",
+            "outside-cheater", "tampered"]
     n_range = max(4, int(26 * scale))
     sk = None
     for i in range(n_range):
@@ -2084,11 +2134,11 @@ def run(ctx: Ctx):
 
 
 def search(ctx: Ctx, reason: str):
-    run_cases(ctx, 30000, False)
+    run_cases(ctx, 8000, False)
     ok = ctx.model_ok
     ctx.model_ok = False
     try:
-        protocol_cases(ctx, 3)
+        protocol_cases(ctx, 1)        # one more quick-sized batch on other seeds-of-the-day; keeps a red run < 3 min
     finally:
         ctx.model_ok = ok
 
@@ -2109,7 +2159,7 @@ def replay(ctx: Ctx, rec: dict):
     if kind == "range":
         sk = BonehPrivateKey.unserialize(bytes.fromhex(r["sk"]))
         range_round(ctx, batch, sk=sk, scenario=r["scenario"], seed=r.get("seed"),
-                    force={"split": r.get("split"), "bitspace": r.get("bitspace")})
+                    force={"split": r.get("split"), "bitspace": r.get("bitspace"), "bkind": r.get("bkind")})
         print(f"replay: the recorded range round (scenario {r['scenario']}, recorded key and seed): "
               f"{'property FAILS' if ctx.failures else 'property holds'}")
         return
@@ -2120,12 +2170,14 @@ def replay(ctx: Ctx, rec: dict):
               f"{'property FAILS' if ctx.failures else 'property holds'}")
         return
     if kind == "session":
-        issuance_session(ctx, batch, seed=r.get("seed"))
-        print(f"replay: the recorded session (seed {r.get('seed')}; keys are fresh): "
+        issuance_session(ctx, batch, seed=r.get("seed"),
+                         force={"answer_order": r.get("answer_order"), "chunks": r.get("chunks"),
+                                "formats": r.get("formats"), "keys": r.get("keys"), "values": r.get("values")})
+        print(f"replay: the recorded session (seed, answer order, chunk schedule, formats, keys and values as recorded): "
               f"{'property FAILS' if ctx.failures else 'property holds'}")
         return
     if kind == "bad-answer":
-        bad_answer_cases(ctx, 20)
+        bad_answer_cases(ctx, 1, forced=r.get("r"))
         print(f"replay (bad answer byte): {'property FAILS' if ctx.failures else 'property holds'}")
         return
     if kind == "score":
